@@ -60,6 +60,13 @@ int main() {
   }
   const auto& ens = vf::enumerators<E>();
   long long nonkeys = 0, accepted = 0;
+  // Every string is parsed from ONE reused buffer, directly after an accepted spelling of the same length was parsed from the
+  // same address (a two-step history): the answer must depend on the bytes of the view only, not on what was parsed before
+  // or where the bytes live.
+  std::map<size_t, std::vector<const std::pair<std::string, E>*>> keys_by_len;
+  for (auto& kv : keys) keys_by_len[kv.first.size()].push_back(&kv);
+  std::vector<char> buffer(4096);
+  size_t rot = 0;
   for (const std::string& s : cases) {
     const std::pair<std::string, E>* hit = nullptr;
     for (auto& kv : keys)
@@ -67,10 +74,21 @@ int main() {
         hit = &kv;
         break;
       }
+    if (s.size() + 1 > buffer.size()) buffer.resize(2 * s.size() + 1);
+    auto it = keys_by_len.find(s.size());
+    if (it != keys_by_len.end()) {
+      const auto* prime = it->second[rot++ % it->second.size()];
+      std::memcpy(buffer.data(), prime->first.data(), prime->first.size());
+      const auto primed = PhQ::ParseEnumeration<E>(std::string_view(buffer.data(), prime->first.size()));
+      if (!primed.has_value() || primed.value() != prime->second) vf::viol(std::string("negative-space|") + VF_ENAME + "|priming-parse-failed", "{}");
+      vf::stat("priming_parses");
+    }
+    std::memcpy(buffer.data(), s.data(), s.size());
+    buffer[s.size()] = 'Z';  // the view is not NUL-terminated
     std::optional<E> got;
     bool threw = false;
     try {
-      got = PhQ::ParseEnumeration<E>(std::string_view(s.data(), s.size()));
+      got = PhQ::ParseEnumeration<E>(std::string_view(buffer.data(), s.size()));
     } catch (...) {
       threw = true;
     }
